@@ -1382,6 +1382,12 @@ class System:
             if not name.endswith(suffix):
                 continue
             module_name = name[:-len(suffix)]
+            try:
+                module_name.encode('utf-8')
+            except UnicodeEncodeError:
+                # The file name holds bytes that are not UTF-8 (they arrive as lone surrogates):
+                # a name that cannot be encoded cannot be written to a page either.
+                module_name = module_name.encode('utf-8', 'backslashreplace').decode('utf-8')
             if suffix in importlib.machinery.EXTENSION_SUFFIXES:
                 if self.options.introspect_c_modules:
                     self.introspectModule(path, module_name, package)
